@@ -168,12 +168,16 @@ pub fn c14_whitespace_body<S: Src>(s: &mut S) {
 }
 
 /// `&str` of up to 3 characters from an alphabet containing the eight line terminators' characters
-const NL_ALPHA: [char; 8] = ['\n', '\r', '\x0B', '\x0C', '\u{85}', '\u{2028}', '\u{2029}', 'a'];
+/// plus two characters that are NOT terminators but whose low byte is CR / LF (U+010D, U+010A)
+const NL_ALPHA: [char; 10] = ['\n', '\r', '\x0B', '\x0C', '\u{85}', '\u{2028}', '\u{2029}', 'a', '\u{10D}', '\u{10A}'];
+fn is_nl(c: char) -> bool {
+    matches!(c, '\n' | '\r' | '\x0B' | '\x0C' | '\u{85}' | '\u{2028}' | '\u{2029}')
+}
 
-/// @harness props=C14:Q,C20:T n=3 err=Cheap timeout=900 input=&str_of_up_to_3_chars_from_{LF,CR,VT,FF,NEL,LS,PS,a}
+/// @harness props=C14:Q,C20:T n=3 err=Cheap timeout=900 input=&str_of_up_to_3_chars_from_{LF,CR,VT,FF,NEL,LS,PS,a,U+010D,U+010A}
 /// @shape text::newline().to_slice() then rest, on &str
-/// @symbolic each character: index 0..=7; number of characters 0..=3
-/// @aims newline = exactly the eight documented terminators, CR LF consumed as one, a lone CR consumes only itself
+/// @symbolic each character: index 0..=9; number of characters 0..=3
+/// @aims newline = exactly the eight documented terminators, CR LF consumed as one, a lone CR consumes only itself; characters that merely END in the byte 0x0D / 0x0A are not terminators
 pub fn c14_newline_body<S: Src>(s: &mut S) {
     let mut buf = [0u8; 12];
     let mut len = 0usize;
@@ -181,7 +185,7 @@ pub fn c14_newline_body<S: Src>(s: &mut S) {
     let n = s.upto(3) as usize;
     let mut i = 0;
     while i < 3 {
-        let k = s.upto(7) as usize;
+        let k = s.upto(9) as usize;
         if i < n {
             cs[i] = NL_ALPHA[k];
             len += NL_ALPHA[k].encode_utf8(&mut buf[len..]).len();
@@ -191,7 +195,7 @@ pub fn c14_newline_body<S: Src>(s: &mut S) {
     let x = unsafe { core::str::from_utf8_unchecked(&buf[..len]) };
     let r = text::newline::<&str, X>().to_slice().then(any::<&str, X>().repeated().to_slice()).parse(x);
     contract(&r);
-    let want = if n == 0 || cs[0] == 'a' {
+    let want = if n == 0 || !is_nl(cs[0]) {
         0
     } else if cs[0] == '\r' && n >= 2 && cs[1] == '\n' {
         2
@@ -205,6 +209,52 @@ pub fn c14_newline_body<S: Src>(s: &mut S) {
     cover!("cover:crlf", want == 2 && cs[0] == '\r');
     cover!("cover:lone-cr-followed-by-other", r.has_output() && cs[0] == '\r' && n >= 2 && cs[1] != '\n');
     cover!("cover:reject", !r.has_output());
+    cover!("cover:reject-low-byte-cr", !r.has_output() && n >= 1 && cs[0] == '\u{10D}');
+}
+
+/// characters for identifiers on `&str`: ASCII letters / digit / underscore / space, and non-ASCII characters whose
+/// LOW BYTE is an ASCII letter or digit (U+0141 -> 'A', U+0131 -> '1') or that are alphabetic but not ASCII (é)
+const ID_ALPHA: [char; 8] = ['a', 'Z', '_', '7', '\u{141}', '\u{131}', 'é', ' '];
+
+/// @harness props=C14:Q,C20:T n=3 err=Cheap timeout=900 input=&str_of_up_to_3_chars_from_{a,Z,_,7,U+0141,U+0131,é,space}
+/// @shape text::ascii::ident() then rest, on &str with non-ASCII characters
+/// @symbolic each character: index 0..=7; number of characters 0..=3
+/// @aims ascii::ident on &str = [A-Za-z_][A-Za-z0-9_]* over CHARACTERS: a non-ASCII character never counts as an ASCII letter or digit (not even when its low byte is one); the slice ends on a character boundary
+pub fn c14_str_ident_body<S: Src>(s: &mut S) {
+    let mut buf = [0u8; 12];
+    let mut len = 0usize;
+    let mut cs = [' '; 3];
+    let n = s.upto(3) as usize;
+    let mut i = 0;
+    while i < 3 {
+        let k = s.upto(7) as usize;
+        if i < n {
+            cs[i] = ID_ALPHA[k];
+            len += ID_ALPHA[k].encode_utf8(&mut buf[len..]).len();
+        }
+        i += 1;
+    }
+    let x = unsafe { core::str::from_utf8_unchecked(&buf[..len]) };
+    let r = text::ascii::ident::<&str, X>().then(any::<&str, X>().repeated().to_slice()).parse(x);
+    contract(&r);
+    let start = |c: char| c.is_ascii_alphabetic() || c == '_';
+    let cont = |c: char| c.is_ascii_alphanumeric() || c == '_';
+    let mut want = 0usize;
+    if n >= 1 && start(cs[0]) {
+        want = cs[0].len_utf8();
+        let mut k = 1;
+        while k < n && cont(cs[k]) {
+            want += cs[k].len_utf8();
+            k += 1;
+        }
+    }
+    check!("C14:ascii-ident-on-str", r.has_output() == (want > 0));
+    if let Some((id, rest)) = r.output() {
+        check!("C14:ascii-ident-on-str-extent", id.len() == want && rest.len() == x.len() - want);
+        check!("C14:returns-the-matched-slice-of-the-input", id.as_ptr() == x.as_ptr());
+    }
+    cover!("cover:stops-at-non-ascii", r.has_output() && n == 3 && want == 1 && !cs[1].is_ascii());
+    cover!("cover:reject-non-ascii-start", !r.has_output() && n >= 1 && !cs[0].is_ascii());
 }
 
 /// @harness props=C14:Q,C20:T n=2 err=Cheap timeout=900 input=ASCII
@@ -244,5 +294,6 @@ crate::harnesses! {
     c14_keyword [7] = c14_keyword_body;
     c14_whitespace [6] = c14_whitespace_body;
     c14_newline [8] = c14_newline_body;
+    c14_str_ident [8] = c14_str_ident_body;
     c14_str_vs_bytes [5] = c14_str_vs_bytes_body;
 }
